@@ -99,6 +99,55 @@ Section I.
         destruct (pc =? q) eqn:Eq; [|right; exact Y]. apply N.eqb_eq in Eq. rewrite Eq. apply in_app_or in Y as [Y|[<-|[]]]; [right; exact Y|left; left; reflexivity].
   Qed.
 
+  Lemma testbit_bit_q q i : N.testbit (bit q) i = (q =? i).
+  Proof. unfold bit. rewrite N.shiftl_1_l. apply N.pow2_bits_eqb. Qed.
+  (* ---- the two bitboard families after the constructor's fold ---- *)
+  Definition kb_of_i (acc : list (list N) * list N * list N) : list N := snd (fst acc).
+  Definition cb_of_i (acc : list (list N) * list N * list N) : list N := snd acc.
+
+  Lemma nthd_upd7_i (l : list N) i j x : length l = 7%nat -> i < 7 -> nthd (updN l i x) j 0 = if j =? i then x else nthd l j 0.
+  Proof.
+    intros H Hi. destruct (j =? i) eqn:E.
+    - apply N.eqb_eq in E. subst j. apply nthd_updN_same. lia.
+    - apply N.eqb_neq in E. apply nthd_updN_other. congruence.
+  Qed.
+  Lemma nthd_upd2_i (l : list N) i j x : length l = 2%nat -> i < 2 -> nthd (updN l i x) j 0 = if j =? i then x else nthd l j 0.
+  Proof.
+    intros H Hi. destruct (j =? i) eqn:E.
+    - apply N.eqb_eq in E. subst j. apply nthd_updN_same. lia.
+    - apply N.eqb_neq in E. apply nthd_updN_other. congruence.
+  Qed.
+  Lemma pc_kind_lt7N pc : pc_kind pc < 7.
+  Proof. unfold pc_kind. destruct (pc =? 0); [lia|]. pose proof (N.mod_lt (pc - 1) 6 ltac:(lia)). lia. Qed.
+  Lemma pc_color_lt2N pc : pc_color pc < 2.
+  Proof. unfold pc_color. destruct (pc <? 7); lia. Qed.
+
+  Lemma fold_place_bb_i b L : forall ls kb cb, length kb = 7%nat -> length cb = 2%nat ->
+    let acc := fold_left (place_fn b) L (ls, kb, cb) in
+    length (kb_of_i acc) = 7%nat /\ length (cb_of_i acc) = 2%nat /\
+    (forall k i, N.testbit (nthd (kb_of_i acc) k 0) i = N.testbit (nthd kb k 0) i || existsb (fun sq => (sq =? i) && negb (nthd b sq 0 =? 0) && (pc_kind (nthd b sq 0) =? k)) L) /\
+    (forall c i, N.testbit (nthd (cb_of_i acc) c 0) i = N.testbit (nthd cb c 0) i || existsb (fun sq => (sq =? i) && negb (nthd b sq 0 =? 0) && (pc_color (nthd b sq 0) =? c)) L).
+  Proof.
+    induction L as [|h t IH]; intros ls kb cb Hk Hc; cbn [fold_left].
+    - cbv zeta. unfold kb_of_i, cb_of_i. cbn [fst snd existsb]. repeat split; try assumption; intros; rewrite orb_false_r; reflexivity.
+    - rewrite place_fn_eq. destruct (nthd b h 0 =? 0) eqn:E0.
+      + destruct (IH ls kb cb Hk Hc) as [A [B [C D]]]. cbv zeta in *. split; [exact A|]. split; [exact B|]. split.
+        * intros k i. rewrite C. cbn [existsb]. rewrite E0. cbn [negb andb]. rewrite andb_false_r. reflexivity.
+        * intros c i. rewrite D. cbn [existsb]. rewrite E0. cbn [negb andb]. rewrite andb_false_r. reflexivity.
+      + set (pc := nthd b h 0) in *.
+        match goal with |- context [fold_left (place_fn b) t (?a, ?k, ?c)] =>
+          destruct (IH a k c ltac:(rewrite updN_length; exact Hk) ltac:(rewrite updN_length; exact Hc)) as [A [B [C D]]] end.
+        cbv zeta in *. split; [exact A|]. split; [exact B|]. split.
+        * intros k i. rewrite C. rewrite (nthd_upd7_i kb (pc_kind pc) k _ Hk (pc_kind_lt7N pc)). cbn [existsb]. fold pc. rewrite E0. cbn [negb].
+          destruct (k =? pc_kind pc) eqn:Ek.
+          -- apply N.eqb_eq in Ek. subst k. rewrite N.lor_spec, testbit_bit_q, N.eqb_refl. rewrite andb_true_r. btauto.
+          -- rewrite (N.eqb_sym (pc_kind pc) k), Ek. rewrite andb_false_r. reflexivity.
+        * intros c i. rewrite D. rewrite (nthd_upd2_i cb (pc_color pc) c _ Hc (pc_color_lt2N pc)). cbn [existsb]. fold pc. rewrite E0. cbn [negb].
+          destruct (c =? pc_color pc) eqn:Ec.
+          -- apply N.eqb_eq in Ec. subst c. rewrite N.lor_spec, testbit_bit_q, N.eqb_refl. rewrite andb_true_r. btauto.
+          -- rewrite (N.eqb_sym (pc_color pc) c), Ec. rewrite andb_false_r. reflexivity.
+  Qed.
+
   (* XOR sums do not depend on the order of the squares *)
   Lemma SX_perm c b L1 L2 : Permutation L1 L2 -> SX c b L1 = SX c b L2.
   Proof.
@@ -130,6 +179,29 @@ Section I.
     unfold nthd. change 0 with (piece_code None). rewrite map_nth. apply piece_code_lt13.
   Qed.
 
+  Lemma in_fen_order_existsb (f g : N -> bool) i : existsb (fun sq => (sq =? i) && f sq && g sq) fen_order = (i <? 64) && f i && g i.
+  Proof.
+    destruct (i <? 64) eqn:E.
+    - apply N.ltb_lt in E. cbn [andb]. destruct (f i && g i) eqn:Fi.
+      + apply existsb_exists. exists i. split; [apply (Permutation_in _ (Permutation_sym fen_order_perm)); apply in_all_squares; exact E|]. rewrite N.eqb_refl. exact Fi.
+      + destruct (existsb _ fen_order) eqn:X; [|reflexivity]. apply existsb_exists in X as [y [_ Hy]]. apply andb_prop in Hy as [Hy Y3]. apply andb_prop in Hy as [Y1 Y2]. apply N.eqb_eq in Y1. subst y. rewrite Y2, Y3 in Fi. discriminate Fi.
+    - cbn [andb]. destruct (existsb _ fen_order) eqn:X; [|reflexivity]. apply existsb_exists in X as [y [Hy Hy2]]. apply andb_prop in Hy2 as [Hy2 _]. apply andb_prop in Hy2 as [Y1 _]. apply N.eqb_eq in Y1. subst y.
+      apply (Permutation_in _ fen_order_perm) in Hy. apply in_all_squares in Hy. apply N.ltb_nlt in E. contradiction.
+  Qed.
+
+  Lemma zeros_testbit n k i : N.testbit (nthd (repeat 0 n) k 0) i = false.
+  Proof. unfold nthd. generalize (N.to_nat k). induction n as [|n IH]; intros [|m]; cbn; rewrite ?N.bits_0; try reflexivity. apply IH. Qed.
+
+  Lemma bb_of_fold (b kb cb : list N) : length kb = 7%nat -> length cb = 2%nat ->
+    (forall k i, N.testbit (nthd kb k 0) i = N.testbit (nthd (repeat 0 7) k 0) i || existsb (fun sq => (sq =? i) && negb (nthd b sq 0 =? 0) && (pc_kind (nthd b sq 0) =? k)) fen_order) ->
+    (forall c i, N.testbit (nthd cb c 0) i = N.testbit (nthd (repeat 0 2) c 0) i || existsb (fun sq => (sq =? i) && negb (nthd b sq 0 =? 0) && (pc_color (nthd b sq 0) =? c)) fen_order) ->
+    fam_sound kb 7 b pc_kind /\ fam_sound cb 2 b pc_color.
+  Proof.
+    intros LK LC BK BC. split; (split; [assumption|]); intros k i _.
+    - rewrite BK, zeros_testbit. cbn [orb]. rewrite (in_fen_order_existsb (fun sq => negb (nthd b sq 0 =? 0)) (fun sq => pc_kind (nthd b sq 0) =? k) i). reflexivity.
+    - rewrite BC, zeros_testbit. cbn [orb]. rewrite (in_fen_order_existsb (fun sq => negb (nthd b sq 0 =? 0)) (fun sq => pc_color (nthd b sq 0) =? k) i). reflexivity.
+  Qed.
+
   (* the constructor (Position::Position(fen) after parsing) establishes the invariant, for every board of 64 squares *)
   Theorem rep_of_position_key_inv (p : Rules.position) : length (Rules.brd p) = 64%nat -> key_inv zt (rep_of_position zt p).
   Proof.
@@ -147,7 +219,8 @@ Section I.
     { intros pc Hpc. assert (Hnil : nthd (repeat [] 13) pc ([] : list N) = []) by (destruct (N12 pc Hpc) as [->|[->|[->|[->|[->|[->|[->|[->|[->|[->|[->| ->]]]]]]]]]]]; reflexivity).
       rewrite Hnil. split; [constructor|intros sq []]. }
     pose proof (fold_place_sound b fen_order Hnd (repeat [] 13) (repeat 0 7) (repeat 0 2) eq_refl Hc Hinit) as HS. cbv zeta in HS.
-    destruct (fold_left (place_fn b) fen_order (repeat [] 13, repeat 0 7, repeat 0 2)) as [[ls kb] cb]. cbn [fst] in HF, HS.
+    pose proof (fold_place_bb_i b fen_order (repeat [] 13) (repeat 0 7) (repeat 0 2) eq_refl eq_refl) as HB. cbv zeta in HB.
+    destruct (fold_left (place_fn b) fen_order (repeat [] 13, repeat 0 7, repeat 0 2)) as [[ls kb] cb]. cbn [fst] in HF, HS. unfold kb_of_i, cb_of_i in HB. cbn [fst snd] in HB.
     destruct HF as [A [B [C [D F]]]].
     assert (Hpk0 : pk zt (repeat [] 13) = 0) by reflexivity. assert (Hwk0 : wkp zt (repeat [] 13) = 0) by reflexivity.
     rewrite Hpk0, N.lxor_0_l in B. rewrite Hwk0, N.lxor_0_l in C.
@@ -157,11 +230,13 @@ Section I.
     - unfold piece_inv, cover. cbn [set_meta r_board r_lists r_key].
       split; [exact Hb|]. split; [exact A|]. split; [intros sq _; apply codes_of_map|].
       split; [intros sq Hsq Hne; apply F; [|exact Hne]; apply (Permutation_in _ (Permutation_sym fen_order_perm)); apply in_all_squares; exact Hsq|].
-      split; [reflexivity|]. split; [reflexivity|]. split; [exact B|]. split; [exact C|].
-      intros pc Hpc. destruct (HS pc Hpc) as [S1 S2]. split; [exact S1|]. intros sq Hin. destruct (S2 sq Hin) as [E [X|X]].
+      split; [reflexivity|]. split; [reflexivity|]. split; [exact B|]. split; [exact C|]. split.
+      { intros pc Hpc. destruct (HS pc Hpc) as [S1 S2]. split; [exact S1|]. intros sq Hin. destruct (S2 sq Hin) as [E [X|X]].
       + split; [|exact E]. apply in_all_squares. apply (Permutation_in _ fen_order_perm). exact X.
       + exfalso. assert (Hnil : nthd (repeat [] 13) pc ([] : list N) = []) by (destruct (N12 pc Hpc) as [->|[->|[->|[->|[->|[->|[->|[->|[->|[->|[->| ->]]]]]]]]]]]; reflexivity).
-        rewrite Hnil in X. destruct X.
+        rewrite Hnil in X. destruct X. }
+      (* the bitboards *)
+      destruct HB as [LK [LC [BK BC]]]. exact (bb_of_fold b kb cb LK LC BK BC).
     - unfold scalar_inv. cbn [set_meta r_key r_ep r_castling r_side scratch_key k_ep k_castling k_color]. repeat split; reflexivity.
   Qed.
 
